@@ -438,7 +438,7 @@ func (t *TOTP) PostValidate(w http.ResponseWriter, r *http.Request) error {
 // validation* constants) and an error. The string return is completely invalid
 // if err != nil.
 //
-// validate will set the previously used code to the input
+// validate will set the previously used code to the input once it is accepted
 func (t *TOTP) validate(r *http.Request) (User, string, error) {
 	logger := t.RequestLogger(r)
 
@@ -493,16 +493,20 @@ func (t *TOTP) validate(r *http.Request) (User, string, error) {
 	// "123456 " is a fresh code to us and a valid one to the library.
 	input := strings.TrimSpace(totpCodeValues.GetCode())
 
-	if oneTime, ok := user.(UserOneTime); ok {
-		oldCode := oneTime.GetTOTPLastCode()
-		if oldCode == input {
-			return user, t.Localizef(r.Context(), authboss.TxtRepeated2FACode), nil
-		}
-		oneTime.PutTOTPLastCode(input)
+	oneTime, isOneTime := user.(UserOneTime)
+	if isOneTime && oneTime.GetTOTPLastCode() == input {
+		return user, t.Localizef(r.Context(), authboss.TxtRepeated2FACode), nil
 	}
 
 	if !totp.Validate(input, secret) {
 		return user, t.Localizef(r.Context(), authboss.TxtInvalid2FACode), nil
+	}
+
+	// Only a code that was accepted is remembered: whatever else gets typed
+	// into the field (a recovery code, the password) must not end up in
+	// storage when another module saves the user after the failed attempt.
+	if isOneTime {
+		oneTime.PutTOTPLastCode(input)
 	}
 
 	return user, t.Localizef(r.Context(), authboss.TxtSuccess), nil
